@@ -146,7 +146,7 @@ func (r *Recorder) hook(kind string, par int, ins []any, outs []any, extra []int
 		return
 	}
 	ev := StageEvent{Kind: kind, Par: par, Goid: g, Ins: r.flatten(ins), Outs: r.flatten(outs)}
-	if kind == "Drain" {
+	if kind == "Drain" || kind == "Operate" || kind == "Operate3" {
 		ev.Stack = callers()
 	}
 	if len(extra) > 0 {
